@@ -223,11 +223,17 @@ def write_replay(prop, v):
     # copy input files named by the case so the replay survives scratch cleanup
     c = v.get("case") or {}
     if isinstance(c, dict):
-        for k in ("file", "input_file", "dir"):
+        for k in ("file", "input_file", "dir", "cwd"):
             p = c.get(k)
-            if isinstance(p, str) and os.path.isfile(p) and not p.startswith(REPO):
+            if not isinstance(p, str) or p.startswith(REPO + "/") or p == REPO:
+                continue
+            src = os.path.dirname(p) if os.path.isfile(p) else p
+            # keep the whole (small) package directory: scratch workspaces are deleted at exit
+            if os.path.isdir(src) and src.startswith("/tmp/"):
                 try:
-                    shutil.copy(p, os.path.join(d, os.path.basename(p)))
+                    n = sum(len(fs) for _, _, fs in os.walk(src))
+                    if n <= 200:
+                        shutil.copytree(src, os.path.join(d, "input-" + os.path.basename(src)), dirs_exist_ok=True, symlinks=True)
                 except OSError:
                     pass
         for name, content in (c.get("files") or {}).items() if isinstance(c.get("files"), dict) else []:
